@@ -400,7 +400,7 @@ fn gen_rule(rng: &mut Rng, idx: usize) -> RuleAst {
         quoted_name: true,
         description: None,
         attrs: Attrs {
-            salience: if rng.bool() { Some(*rng.pick(&[0, 1, 1, 5, 10])) } else { None },
+            salience: if rng.bool() { Some(*rng.pick(&[0, 1, 1, 5, 10, 0, 1, 1, 5, 10, -1, -3, i32::MAX, i32::MIN])) } else { None },
             no_loop: rng.chance(1, 3),
             activation_group: if rng.chance(1, 4) { Some(rng.pick(&["X", "Y"]).to_string()) } else { None },
             ..Default::default()
@@ -492,7 +492,7 @@ impl Check for C03 {
         "C03"
     }
     fn rule(&self) -> String {
-        "1-5 rules drawn from: counters under a limit above/below the bound, flag flippers (ping-pong), always-true rules, quiescing rules, string state machines, counters chasing each other; no-loop on 1/3 of the rules, activation groups on 1/4, 1/8 disabled, salience ties, rules whose action fails (the call returns Err); 1-3 calls on ONE engine and fact store (execute_with_callback / execute mixed), in half of the multi-call histories with remove_rule / add-the-rule-again edits of the knowledge base between two calls; max_cycles over 0..=64 (a fixed family of programs is run on EVERY max_cycles value: exhaustive over that grid), timeout None. Non-trivial: at least one firing and at least two passes observed; distinct by (rules, disabled, store, max_cycles).".into()
+        "1-5 rules drawn from: counters under a limit above/below the bound, flag flippers (ping-pong), always-true rules, quiescing rules, string state machines, counters chasing each other; no-loop on 1/3 of the rules, activation groups on 1/4, 1/8 disabled, salience ties and negative / i32::MIN / i32::MAX saliences, rules whose action fails (the call returns Err); 1-3 calls on ONE engine and fact store (execute_with_callback / execute mixed), in half of the multi-call histories with remove_rule / add-the-rule-again edits of the knowledge base between two calls; max_cycles over 0..=64 (a fixed family of programs is run on EVERY max_cycles value: exhaustive over that grid), timeout None. Non-trivial: at least one firing and at least two passes observed; distinct by (rules, disabled, store, max_cycles).".into()
     }
     fn assumptions(&self) -> Vec<String> {
         vec![
@@ -501,6 +501,9 @@ impl Check for C03 {
             "eligible for the fixpoint clause = enabled and not a no-loop rule that already fired on this engine (no-loop tracking is per engine and carries over between calls); no agenda groups or dates in this fragment; in a pass that fired nothing no activation group is blocked".into(),
             "a non-returning execute is decided on CPU seconds of the single announced case re-run alone in a child (30 s for a program that normally takes microseconds), never on wall clock".into(),
         ]
+    }
+    fn devopt_scale(&self) -> Option<f64> {
+        Some(0.5)
     }
     fn explore(&self, cli: &Cli, st: &mut Stats) {
         let cfg = ChildShardCfg {
